@@ -76,4 +76,19 @@ namespace Atlas.Reverse
 /-- the loop of `alterTable`: `reversible = reversible && inv c` for every change. -/
 def alterFlag (inv : α → Bool) (cs : List α) : Bool := cs.foldl (fun r c => r && inv c) true
 
+/-- the change kinds of one ALTER TABLE statement as far as reversibility goes (sql/mysql/migrate_oss.go and
+sql/postgres/migrate_oss.go, `alterTable`). -/
+inductive AlterCh
+  | addCheck (named : Bool)          -- ADD CHECK / ADD CONSTRAINT name CHECK
+  | modifyColumn (generated : Bool)  -- ModifyColumn; `generated` = the ChangeGenerated bit is set
+  | other                            -- every other change of the statement
+deriving DecidableEq, Repr, Inhabited
+
+/-- whether the planner can write the reverse of the change: a check it cannot name cannot be dropped again; the
+PostgreSQL planner cannot restore a dropped generation expression. -/
+def alterInv (pg : Bool) : AlterCh → Bool
+  | .addCheck named => named
+  | .modifyColumn g => !(pg && g)
+  | .other => true
+
 end Atlas.Reverse
